@@ -148,6 +148,7 @@ structure St where
   expired : Bool := false
   firstTriggered : Option Int := none   -- `none` = zero `time.Time`
   lastTriggered : Option Int := none
+  inhibiting : Bool := false            -- the value last `Set` on the state's `inhibitors` (all get the same value)
 deriving DecidableEq, Repr, Inhabited
 
 /-- New flapping flag from (old flag, ring, idx). -/
@@ -185,7 +186,9 @@ def addEvent (c : Cfg) (flap : FlapFn) (s : St) (t : Int) (l : Nat) : St :=
 def triggered (s : St) (t : Int) : St :=
   let p := if s.idx = 0 then s.history.length - 1 else s.idx - 1
   { s with lastTriggered := some t,
-           firstTriggered := if Gen.firstTriggeredRule { prev := s.history.getD p 0 } then some t else s.firstTriggered }
+           firstTriggered := if Gen.firstTriggeredRule { prev := s.history.getD p 0 } then some t else s.firstTriggered,
+           -- `inhibited := a.history[a.idx] != alert.OK; for _, in := range a.inhibitors { in.Set(inhibited) }`
+           inhibiting := Gen.inhibitRule { cur := s.history.getD s.idx 0 } }
 
 /-- `duration()` = `lastTriggered.Sub(firstTriggered)` -/
 def duration (s : St) : Int :=
@@ -291,6 +294,49 @@ def restoreEventState (c : Cfg) (flap : FlapFn) (t : Int) (level : Nat) (stored 
 def restoreEventStateOld (c : Cfg) (flap : FlapFn) (t : Int) (level : Nat) (stored : Int) : St :=
   let s := newAlertState c
   if level != 0 then triggered (addEvent c flap s t level) stored else s
+
+/-! ### Inhibition (`.inhibit(category, tags…)`, `.category(c)`; alert/inhibit.go, `AlertNode.handleEvent`)
+
+`newAlertState` creates, per group of an alert node and per `inhibit` declaration, an `Inhibitor(category, {tag ↦ the
+group's value of that tag})` and registers it with the alert service; `triggered()` is the only place that sets them
+(`St.inhibiting`). `handleEvent` of ANY alert node first asks `IsInhibited(event category, event tags)`: some
+registered inhibitor of that category is set and every tag of its tag set has the same value in the event's tags
+(a tag the event lacks reads as ""); then the event is counted as `alerts_inhibited` and NOT collected (it reaches no
+handler); the data is forwarded downstream all the same. -/
+
+/-- `Inhibitor.IsInhibited` + `isMatch` for one inhibitor: its flag, its category, its tag set against the event. -/
+def inhibitorHits (flag : Bool) (category : String) (tagset : List (String × String))
+    (evCategory : String) (evTags : List (String × String)) : Bool :=
+  flag && category == evCategory &&
+  tagset.all (fun kv => ((evTags.find? (fun e => e.1 == kv.1)).map (·.2)).getD "" == kv.2)
+
+/-- `handleEvent`: is the event dropped? `inhibitors` = every registered inhibitor (flag, category, tag set). -/
+def eventInhibited (inhibitors : List (Bool × String × List (String × String)))
+    (evCategory : String) (evTags : List (String × String)) : Bool :=
+  Gen.inhibitionRecognised && inhibitors.any (fun i => inhibitorHits i.1 i.2.1 i.2.2 evCategory evTags)
+
+/-- The two-ID world the theorems are about: inhibiting alert A (configuration `ca`, one ID) declared
+`.inhibit(cat, tags…)` with `hit` = its inhibitor matches B's events (category and tags); alert B (`cb`, one ID). -/
+structure World where
+  a : St
+  b : St
+deriving Repr, Inhabited
+
+inductive WOp where
+  | pa (p : Pt)      -- a point of A's ID
+  | pb (p : Pt)      -- a point of B's ID
+deriving Repr, Inhabited
+
+/-- One point: returns A's event, B's event as DELIVERED to B's handlers (A is not inhibited by anybody here). -/
+def worldStep (ca cb : Cfg) (fa fb : FlapFn) (hit : Bool) (w : World) : WOp → World × Option Ev × Option Ev
+  | .pa p => let r := pointStep ca fa w.a p; ({ w with a := r.1 }, r.2, none)
+  | .pb p =>
+    let r := pointStep cb fb w.b p
+    ({ w with b := r.1 }, none, if Gen.inhibitionRecognised && (w.a.inhibiting && hit) then none else r.2)
+
+def runWorld (ca cb : Cfg) (fa fb : FlapFn) (hit : Bool) (w : World) : List WOp → List (Option Ev × Option Ev)
+  | [] => []
+  | op :: ops => let r := worldStep ca cb fa fb hit w op; r.2 :: runWorld ca cb fa fb hit r.1 ops
 
 /-! ### Flap detection: `percentChange` / `updateFlapping`
 
